@@ -623,6 +623,16 @@ class Evaluator:
         args = [self.ev(a, env) for a in c.args if not isinstance(a, ast.Starred)]
         kws = {k.arg: self.ev(k.value, env) for k in c.keywords if k.arg}
         ct = self.repo.resolve_call(self.f, self.f.module, c)
+        if ct.kind == "repo" and len(ct.funcs) == 1 and c.keywords and not any(isinstance(a, ast.Starred) for a in c.args):
+            # operands passed by keyword take their positional place: f(x, matrix=y) is f(x, y)
+            g0 = ct.funcs[0]
+            b0 = bind_call(c, g0, ct.bound)
+            pos0 = list(g0.pos_params)[1:] if ct.bound and g0.pos_params else list(g0.pos_params)
+            if b0.ok:
+                k0 = len(args)
+                while k0 < len(pos0) and pos0[k0] in b0.params and any(kw.arg == pos0[k0] for kw in c.keywords):
+                    args.append(kws[pos0[k0]])
+                    k0 += 1
         if isinstance(c.func, ast.Attribute) and ct.kind != "repo" and not (isinstance(c.func.value, ast.Name) and c.func.value.id not in env):
             # x.dot(y), x.reshape(...), x.conj(): a method of an array -- the receiver is the first operand
             recv = self.ev(c.func.value, env)
@@ -708,6 +718,12 @@ class Evaluator:
         if name in self.svd_prims and args:
             # U and V are orthonormal (scale-free); the singular values carry the degree
             return ("tuple", [Deg({}), Deg(degree_of(args[0])), Deg({})])
+        if name in self.solver_prims and len(args) < 2 and ct.kind == "repo" and len(ct.funcs) == 1 and len(ct.funcs[0].pos_params) >= 2:
+            # the same call with its first two operands passed by keyword
+            b = bind_call(c, ct.funcs[0], ct.bound)
+            p0, p1 = ct.funcs[0].pos_params[0], ct.funcs[0].pos_params[1]
+            if p0 in b.params and p1 in b.params:
+                return Deg(vadd(degree_of(self.ev(b.params[p0], env)), degree_of(self.ev(b.params[p1], env)), -1))
         if name in self.solver_prims and len(args) >= 2:
             # an (NN)LS solver called on normal-equation data (UtM, UtU): its exact solution has degree UtM - UtU
             return Deg(vadd(degree_of(args[0]), degree_of(args[1]), -1))
@@ -1069,6 +1085,8 @@ class Evaluator:
         iter_name = pos_of or (it.args[0].id if enum and isinstance(it.args[0], ast.Name) else (it.id if isinstance(it, ast.Name) else None))
         if pos_of is not None or counted is not None:
             idx = s.target.id
+        elif isinstance(it, ast.Call) and is_name(it.func, "range") and isinstance(s.target, ast.Name) and len(it.args) == 1:
+            idx = s.target.id  # positions 0 .. n-1 for a size the analysis does not know: still a position variable
         else:
             idx = s.target.elts[0].id if enum and isinstance(s.target, ast.Tuple) and isinstance(s.target.elts[0], ast.Name) else None
         pre = {k: v for k, v in env.items() if isinstance(v, ListV)}
@@ -1165,6 +1183,13 @@ class Evaluator:
         n_iter = None
         # trip count given by a plain option / variable (not the length of a list of factors)
         unknown_trip = isinstance(it, ast.Call) and is_name(it.func, "range") and len(it.args) == 1 and isinstance(it.args[0], (ast.Name, ast.Attribute)) and counted is None and pos_of is None
+        if unknown_trip and isinstance(it.args[0], ast.Name) and it.args[0].id not in self.f.all_params:
+            # a local: the number of modes / factors (len, ndim, a shape entry) is a structural size, not an option
+            from ..common import inline_locals
+
+            d = inline_locals(self.f.node, it.args[0])
+            if isinstance(d, ast.Call) and call_name(d) in ("len", "ndim") or (isinstance(d, ast.Subscript) and isinstance(d.value, ast.Call) and call_name(d.value) == "shape") or (isinstance(d, ast.Attribute) and d.attr == "ndim"):
+                unknown_trip = False
         if rest_len[0] != "?":
             n_iter = (rest_len[0] - (1 if (once_given and once) else 0), rest_len[1])
 
